@@ -26,7 +26,7 @@ func init() {
 		Title: "Message queues: FIFO, exactly once, no lost wake-up; priority by counter",
 		Explanation: "Decides, from the type-checked SSA of the generic bodies of queue.SimpleQueue and queue.PriorityQueue (every function of the package that touches their fields), shapes that hold or fail for every interleaving at once. " +
 			"SimpleQueue: (D1) items enter the list at one end and leave from the other (PushBack vs Front+Remove, or the mirror image), every removed element is the head element read in the same critical section and its value is what the function returns, every head value that is returned is removed on every path (exactly once), and every list operation runs with the queue mutex held; " +
-			"(D2) the wake-up channel is not of the losing shape 'capacity 0 + non-blocking send + receive performed after the mutex was released' (a send falling between the waiter's unlock and its receive is dropped); " +
+			"(D2) the wake-up channel is not of the losing shape 'capacity 0 + non-blocking send + receive performed after the mutex was released' (a send falling between the waiter's unlock and its receive is dropped); every receive that takes a token off the wake-up channel (the blocking wait, a non-blocking drain, in the waiter or in a helper on its path) is followed, before the consumer can block on the channel again, by a fresh emptiness test made with the mutex held - unless it was made with the mutex held on the empty side of such a test in the same critical section (the token is then provably stale) - because a token taken after the mutex was released may belong to an item that has not been seen; and an exported function never reaches its blocking wait from the entry without such a test; " +
 			"(D3) after every wake-up the waiter re-observes emptiness (Len, or a nil-tested Front/Back) before any removal; " +
 			"(D4) every insertion is followed on every path by a wake-up send, or preceded by one inside the same uninterrupted critical section; " +
 			"(D5) the blocking wait also listens to ctx.Done(), a wait ended by cancellation cannot re-enter the wait without testing ctx.Err(), the exit taken on cancellation returns the zero item and false, and an item is removed and handed out only after the context was tested since the last blocking point (function entry or the wait; ctx.Err() feeding a branch or a non-blocking ctx.Done() case), the cancelled side of that test removing nothing - so a wait whose context is already cancelled returns 'no item' even when items are pending. " +
@@ -34,7 +34,7 @@ func init() {
 			"Not decided: the exhaustive interleaving exploration the property asks for (only the listed lost-wake-up, ordering and locking shapes are decided), fairness/liveness of the Go scheduler, behaviour with more than one consumer (a single wake-up token is enough for one consumer only), correctness of container/list and container/heap themselves, what the callers in store_message.go do with the items.",
 		Trusted:     []string{"golang.org/x/tools go/packages+go/ssa (v0.29.0)", "container/list, container/heap, sync.Mutex/RWMutex, channel and select semantics of the Go runtime", "lock identity by owner type + field (methods touch only their receiver's fields)"},
 		Assumptions: []string{"one consumer per SimpleQueue (as in MessageStore.processMessageLoop)", "queue fields are unexported, so the functions of package internal/queue are all the code that can touch them"},
-		Floors:      map[string]int{"D1": 10, "D2": 1, "D3": 1, "D4": 1, "D5": 4, "D6": 19},
+		Floors:      map[string]int{"D1": 10, "D2": 3, "D3": 1, "D4": 1, "D5": 4, "D6": 19},
 		Run:         runC15,
 	})
 }
@@ -563,6 +563,7 @@ type c15Simple struct {
 	makeFns  []*ssa.Function
 	mustSend map[*ssa.Function]int // 0 unknown, 1 yes, 2 no
 	ungRem   map[*ssa.Function]int
+	blockUnt map[*ssa.Function]int
 }
 
 func (e *c15Env) runSimple(named *types.Named) {
@@ -589,6 +590,7 @@ func (e *c15Env) runSimple(named *types.Named) {
 		return
 	}
 	s.ruleWakeup()
+	s.ruleTokenRecheck()
 	s.ruleRecheck()
 	s.ruleSignalAfterInsert()
 	s.ruleCancel()
@@ -2513,4 +2515,245 @@ func (p *c15Prio) ruleDrain() {
 		}
 	}
 	c.ok("D6", construct, fn.Pos(), "interpreted for 0..5 queued items with a callback that never fails: returns nil only with the queue empty, one heap.Pop per emptiness test, every popped item handed to the callback")
+}
+
+// ---------------------------------------------------------------------------
+// D2 (token accounting): a consumed token is re-checked before the consumer blocks again.
+
+// lockedTests: emptiness observations of fn made with the queue mutex held.
+func (s *c15Simple) lockedTests(fn *ssa.Function) map[ssa.Instruction]bool {
+	out := map[ssa.Instruction]bool{}
+	for in := range s.emptinessTests(fn) {
+		if s.e.holds(in, s.locks, 'W') {
+			out[in] = true
+		}
+	}
+	return out
+}
+
+// blockTargets: the instructions of fn at which the consumer can block on the wake-up channel
+// without a fresh emptiness test: blocking receives, and calls of package functions that
+// reach one from their entry without such a test.
+func (s *c15Simple) blockTargets(fn *ssa.Function, depth int) map[ssa.Instruction]bool {
+	out := map[ssa.Instruction]bool{}
+	for _, r := range s.recvs {
+		if r.fn == fn && r.blocking {
+			out[r.in] = true
+		}
+	}
+	if depth > 3 {
+		return out
+	}
+	for _, b := range fn.Blocks {
+		for _, in := range b.Instrs {
+			if g := s.pkgCallee(in); g != nil && g != fn && s.mayBlockUntested(g, depth+1) {
+				out[in] = true
+			}
+		}
+	}
+	return out
+}
+
+func (s *c15Simple) mayBlockUntested(g *ssa.Function, depth int) bool {
+	if s.blockUnt == nil {
+		s.blockUnt = map[*ssa.Function]int{}
+	}
+	if v := s.blockUnt[g]; v != 0 {
+		return v == 1
+	}
+	s.blockUnt[g] = 2
+	res := len(g.Blocks) > 0 && c15Search(g.Blocks[0], 0, s.blockTargets(g, depth), s.lockedTests(g), nil) != nil
+	if res {
+		s.blockUnt[g] = 1
+	}
+	return res
+}
+
+// blocksBeforeRecheck: from instruction at (a receive, or the call of the helper containing
+// it) the consumer can block on the channel again without a fresh emptiness test under the mutex.
+func (s *c15Simple) blocksBeforeRecheck(at ssa.Instruction, depth int) ssa.Instruction {
+	fn := at.Parent()
+	stops := s.lockedTests(fn)
+	if hit := c15After(at, s.blockTargets(fn, 0), stops); hit != nil {
+		return hit
+	}
+	if obj := fn.Object(); depth < 2 && fn.Parent() == nil && (obj == nil || !obj.Exported()) {
+		if c15After(at, c15Returns(fn), stops) != nil {
+			for _, cs := range s.e.callSitesOf(fn) {
+				if hit := s.blocksBeforeRecheck(cs, depth+1); hit != nil {
+					return hit
+				}
+			}
+		}
+	}
+	return nil
+}
+
+// emptyEdges: the CFG edges of fn taken exactly when the list was observed empty.
+func (s *c15Simple) emptyEdges(fn *ssa.Function) map[ssa.Instruction][]edge {
+	out := map[ssa.Instruction][]edge{}
+	for _, op := range s.byFn[fn] {
+		v := op.in.Value()
+		if v == nil || v.Referrers() == nil {
+			continue
+		}
+		for _, r := range *v.Referrers() {
+			bo, ok := r.(*ssa.BinOp)
+			if !ok || bo.Referrers() == nil {
+				continue
+			}
+			// truth of the comparison for list lengths 0,1,2
+			var truth [3]bool
+			decided := true
+			switch op.method {
+			case "Len":
+				var k int64
+				var kok, lenLeft bool
+				if bo.X == v {
+					k, kok = constInt(bo.Y)
+					lenLeft = true
+				} else {
+					k, kok = constInt(bo.X)
+				}
+				if !kok {
+					continue
+				}
+				for n := int64(0); n < 3; n++ {
+					a, b := n, k
+					if !lenLeft {
+						a, b = k, n
+					}
+					switch bo.Op {
+					case token.EQL:
+						truth[n] = a == b
+					case token.NEQ:
+						truth[n] = a != b
+					case token.LSS:
+						truth[n] = a < b
+					case token.LEQ:
+						truth[n] = a <= b
+					case token.GTR:
+						truth[n] = a > b
+					case token.GEQ:
+						truth[n] = a >= b
+					default:
+						decided = false
+					}
+				}
+			case "Front", "Back":
+				if !(isNilConst(bo.X) || isNilConst(bo.Y)) || (bo.Op != token.EQL && bo.Op != token.NEQ) {
+					continue
+				}
+				truth = [3]bool{bo.Op == token.EQL, bo.Op != token.EQL, bo.Op != token.EQL}
+			default:
+				continue
+			}
+			if !decided {
+				continue
+			}
+			for _, rr := range *bo.Referrers() {
+				f, ok := rr.(*ssa.If)
+				if !ok {
+					continue
+				}
+				switch {
+				case truth[0] && !truth[1] && !truth[2]:
+					out[op.in] = append(out[op.in], edge{f.Block(), f.Block().Succs[0]})
+				case !truth[0] && truth[1] && truth[2]:
+					out[op.in] = append(out[op.in], edge{f.Block(), f.Block().Succs[1]})
+				}
+			}
+		}
+	}
+	return out
+}
+
+// provablyStale: the receive is made with the mutex held, on the empty side of an emptiness
+// test made in the same uninterrupted critical section: the token it takes belongs to an item
+// that is already gone.
+func (s *c15Simple) provablyStale(r c15ChanOp) bool {
+	return s.staleAt(r.in, 0)
+}
+
+// staleAt: instruction at (the receive, or the call of the unexported helper that performs it
+// with the mutex still held) runs with the mutex held on the empty side of an emptiness test
+// of the same uninterrupted critical section.
+func (s *c15Simple) staleAt(at ssa.Instruction, depth int) bool {
+	if !s.e.holds(at, s.locks, 'W') {
+		return false
+	}
+	fn := at.Parent()
+	for test, eds := range s.emptyEdges(fn) {
+		if !s.e.holds(test, s.locks, 'W') {
+			continue
+		}
+		for _, ed := range eds {
+			if !edgeDominates(ed, at.Block()) {
+				continue
+			}
+			cont := true
+			for _, in := range c15Between(test, at) {
+				if !s.e.holds(in, s.locks, 'W') {
+					cont = false
+				}
+				if ci, ok := in.(ssa.CallInstruction); ok && strings.HasPrefix(calleeKey(ci.Common()), c15ListPrefix+"Push") {
+					cont = false
+				}
+			}
+			if cont {
+				return true
+			}
+		}
+	}
+	if obj := fn.Object(); depth < 2 && fn.Parent() == nil && (obj == nil || !obj.Exported()) {
+		sites := s.e.callSitesOf(fn)
+		for _, cs := range sites {
+			if _, isCall := cs.(*ssa.Call); !isCall || !s.staleAt(cs, depth+1) {
+				return false
+			}
+		}
+		return len(sites) > 0
+	}
+	return false
+}
+
+func (s *c15Simple) ruleTokenRecheck() {
+	c := s.e.c
+	for _, r := range s.recvs {
+		kind := "non-blocking receive"
+		if r.blocking {
+			kind = "blocking receive"
+		}
+		construct := fnName(r.fn) + "+token taken by " + kind + " is re-checked before blocking"
+		if s.provablyStale(r) {
+			c.ok("D2", construct, posOf(r.in), "the token is taken with the mutex held on the empty side of an emptiness test of the same critical section: it is stale")
+			continue
+		}
+		if hit := s.blocksBeforeRecheck(r.in, 0); hit != nil {
+			where := "after the queue mutex was released"
+			if s.e.holds(r.in, s.locks, 'W') {
+				where = "with the mutex held but not on the empty side of an emptiness test"
+			}
+			c.fail("D2", construct, posOf(hit), "lost wake-up: this %s takes a token off the wake-up channel %s, and the consumer can then block on the channel (here) without a fresh emptiness test under the mutex; an Add that ran completely between the consumer's unlock and this receive has its signal discarded, and the consumer sleeps although the queue is non-empty", kind, where)
+		} else {
+			c.ok("D2", construct, posOf(r.in), "every way from this receive to a blocking wait passes an emptiness test made with the mutex held")
+		}
+	}
+	// exported functions do not reach the blocking wait from their entry without a test
+	for _, fn := range s.e.fns {
+		obj := fn.Object()
+		if obj == nil || !obj.Exported() || fn.Parent() != nil || len(fn.Blocks) == 0 {
+			continue
+		}
+		targets := s.blockTargets(fn, 0)
+		if len(targets) == 0 {
+			continue
+		}
+		construct := fnName(fn) + "+emptiness observed before blocking"
+		if hit := c15Search(fn.Blocks[0], 0, targets, s.lockedTests(fn), nil); hit != nil {
+			c.fail("D2", construct, posOf(hit), "the function can block on the wake-up channel without having observed the queue empty under the mutex: tokens are not counted per item (one token may stand for several items), so it can sleep although items are pending")
+		} else {
+			c.ok("D2", construct, fn.Pos(), "the blocking wait is reached only after an emptiness test made with the mutex held")
+		}
+	}
 }
